@@ -80,6 +80,24 @@ def rsa_priv(nums, em):
     return pow(m, nums[2], nums[0]).to_bytes(k, "big")
 
 
+def reuse_first(obj, method, pos, current, arg_len=0):
+    """Every third case: use the signer/verifier object on a message hashed with a *different* algorithm before the call under test
+    (scheme objects are documented as reusable: what an object did before must not influence the next sign()/verify())."""
+    if pos % 3:
+        return False
+    other = "SHA512" if current != "SHA512" else "SHA256"
+    h = oracles.lib_hash_new(other, b"warm-up message")
+    try:
+        if method == "sign":
+            obj.sign(h)
+        else:
+            obj.verify(h, bytes(arg_len))
+    except (ValueError, TypeError):
+        pass
+    return True
+
+
+
 @st.composite
 def strat_v15(draw, tier):
     bits = draw(st.sampled_from(RSA_BITS if tier == "thorough" else RSA_BITS[:4]))
@@ -122,6 +140,8 @@ def run_v15(case, rec):
         return
     h = oracles.lib_hash_new(hname, msg)
     signer = pkcs1_15.new(kobj)
+    if reuse_first(signer, "sign", case["pos"], hname):
+        rec.event("pkcs1v15:signer-reused-across-hashes")
     sig = bytes(signer.sign(h))
     exp_sig = rsa_priv(nums, em_ok)
     if sig != exp_sig:
@@ -217,6 +237,7 @@ def run_v15(case, rec):
         ref_valid = rp.pkcs1v15_sig_verify_em(em_c, ref_name, hf(vmsg))
     hv = oracles.lib_hash_new(hname, vmsg)
     verifier = pkcs1_15.new(vkey)
+    reuse_first(verifier, "verify", case["pos"] // 3, hname, k)
     kind, r = libcall(verifier.verify, hv, c, allowed=(ValueError,), bucket="pkcs1v15/verify")
     check_verdict("pkcs1v15", cand, ref_valid, kind, r, rec, info, genuine)
     kind2, _ = libcall(verifier.verify, hv, c, allowed=(ValueError,), bucket="pkcs1v15/verify")
@@ -290,8 +311,12 @@ def run_pss(case, rec):
     info = {"bits": case["bits"], "hash": hname, "slen": slen_cfg, "mgf": mgf_h, "cand": cand}
     signer = pss.new(kobj, rand_func=Tape(case["seed"]), **kw)
     h = oracles.lib_hash_new(hname, msg)
+    skip_ = 0
+    if slen_cfg is not None and em_len >= 64 + slen_cfg + 2 and reuse_first(signer, "sign", case["pos"] // 3, hname):
+        skip_ = slen_cfg        # the warm-up signature (SHA-512 or SHA-256) drew its salt from the same tape
+        rec.event("pss:signer-reused-across-hashes")
     sig = bytes(signer.sign(h))
-    salt = Tape(case["seed"])(slen)
+    salt = Tape(case["seed"])(skip_ + slen)[skip_:]
     em_ref = rp.pss_encode(mhash, em_bits, salt, hf, hl, mgf)
     exp = pow(int.from_bytes(em_ref, "big"), nums[2], n).to_bytes(k, "big")
     if sig != exp:
@@ -378,6 +403,8 @@ def run_pss(case, rec):
             ref_valid = rp.pss_verify(hf(vmsg), m_int.to_bytes(em_len, "big"), em_bits, v_slen, hf, hl, mgf)
     hv = oracles.lib_hash_new(hname, vmsg)
     verifier = pss.new(vkey, **vkw)
+    if reuse_first(verifier, "verify", case["pos"], hname, k):
+        rec.event("pss:verifier-reused-across-hashes")
     kind, r = libcall(verifier.verify, hv, c, allowed=(ValueError,), bucket="pss/verify")
     check_verdict("pss", cand, ref_valid, kind, r, rec, info, genuine)
     kind2, _ = libcall(verifier.verify, hv, c, allowed=(ValueError,), bucket="pss/verify")
@@ -569,6 +596,7 @@ def run_dss(case, rec):
     hv = oracles.lib_hash_new(hname, vmsg)
     pub = vkey_obj.public_key() if hasattr(vkey_obj, "public_key") else vkey_obj.publickey()
     verifier = DSS.new(pub, "fips-186-3", encoding=enc_)
+    reuse_first(verifier, "verify", pos, hname, 2 * ob)
     kind_, res = libcall(verifier.verify, hv, c, allowed=(ValueError,), bucket="dss/verify")
     check_verdict("dss", cand, ref_valid, kind_, res, rec, info, genuine)
     kind2, _ = libcall(verifier.verify, hv, c, allowed=(ValueError,), bucket="dss/verify")
